@@ -7,7 +7,7 @@ modules, EventDispatcher and TaskDispatcher, imported from /repo and run over
 vf.fake_pika (a synchronous recording AMQP 0.9.1 broker standing in for the
 uninstalled `pika`).  The asyncio module runs with its *real* make_future and
 coroutines on a synchronous stand-in for the asyncio event loop."""
-import sys, types, re
+import sys, types
 import vf; vf.setup_paths()
 from vf.api import condition
 from vf import stubs, fake_pika
@@ -27,7 +27,8 @@ ASSUMPTIONS = [
     "the name `json` inside the two messaging modules is a shim whose loads() realises its argument and parses it with the standard C decoder (same results as json.loads; avoids CrossHair's slow symbolic JSON decoder)",
     "clock / uuid / logger stubs (vf.stubs.install_env) in the four repository modules; event_dispatcher.sys.exit raises a harness exception instead of SystemExit",
     "StateEngine is replaced by a recording namespace (notify, heartbeat, asl_store.get_cached_view, update_execution_history); opentracing uses its default no-op tracer",
-    "names/subjects/instance ids are short symbolic strings over an alphabet without the grammar's delimiters ';' '/' '{' and without JSON meta characters; option maps come from concrete pools chosen by symbolic selectors",
+    "address names/subjects are short symbolic strings of arbitrary characters except the grammar's delimiters ';' '/' '{'; instance ids, function names and event ids are short symbolic strings over small alphabets (they reach dict keys / JSON text, where CrossHair enumerates values); option maps come from concrete pools chosen by symbolic selectors",
+    "symbolic str arguments that meet slices of themselves are rebuilt character by character (norm) and structures are compared key by key (same) to avoid two CrossHair 0.0.110 equality defects (see notes/C19.md)",
     "expiration: small symbolic ints (forked to concrete values inside the bound) plus concrete pools of floats and strings; CrossHair's real-valued floats cannot close float arithmetic",
 ]
 
